@@ -66,6 +66,23 @@ CLAIM = {
             'param_order_is_sorted; scripts (op ro, independent name orders per object) and oracles (same-typed '
             'results in different orders) tie it. A library exception on a covered input is always reported as a '
             'failing input (script / float-stream / tree replays), never as an infrastructure error. '
+            'R8 argument forms / equivalent entry points: theorems create_is_constructor_then_update, '
+            'add_new_result_is_create_then_add (model ops cr / an); positional, keyword, default and explicit-None '
+            'forms of Result(), Result.create, update, add_new_result, and the constructor / setter / replacement '
+            'paths of SimulationParameters are rotated in the scripts and compared in the entry-points and combine '
+            'oracles; get_result_values_list = element-wise get_result. R9 counts/indices: choice_num and CHOICE '
+            'indexes as Python int, numpy int8..int64/intp, bool, 0-d array, indices >= 256 and negative ones '
+            '(model: exact values; oracle + correspondence). R10 heterogeneous collections: parameter value lists '
+            'with elements of different Python/numpy types and operands of different containers/dtypes (model: exact '
+            'values; oracle + correspondence); list-of-arrays arguments do not exist in this API. R11 non-mutating '
+            'API: observers are pure functions in the model by construction; query batteries (repr, ==, observers, '
+            'confidence intervals, values lists, parameter queries, copies, pickling) between the mutators in '
+            'scripts (ops q / qs) and oracles. R12 insertion order: see above (theorems + ops ro). R13 derived '
+            'objects: theorems copy_is_independent, copy_of_result_set, combine_never_mutates_operands (model ops '
+            'cp / cps: deep copy and pickle round trip); oracle: copies / pickle round trips of the union, unpacked '
+            'children of its parameters, the union as an operand of another combine, parents changed afterwards; '
+            'JSON / to_dict round trips belong to C17. R14 counts: 300 chunks, 258 result names, 299-combination '
+            'grids, 300 choices (oracles), a 260-combination script (correspondence) in every run. '
             'Partial: the outer loop of append_all_results (AppendAllConcatStatement) is proved only per name; the '
             'num_skipped_reps tail of merge_all_results is covered by the frame/rejection theorems and one decided '
             'instance; that a passed validation implies the merge loop cannot raise is proved under the hypotheses '
@@ -2627,7 +2644,7 @@ def big_cases(ctx, quick):
         case = gen_forms_case(rng, big=True)
         case['ty'] = 3
         case['cn_tag'] = rng.choice(['p', 'h', 'w', 'q', 'P'])
-        case['obs'] = [[str(i), '-'] for i in (0, 255, 256, 257, case['cn'] - 1, -1, -case['cn'], 256)]
+        case['obs'] = [[str(i), '-'] for i in (0, 255, 256, case['cn'] - 2, case['cn'] - 1, -1, -case['cn'], 256)]
         run_oracle(ctx, 'entry-points', case, key=('big-choice', rep))
         ctx.branch('R9:index-above-256')
 
